@@ -264,8 +264,8 @@ call_with_inference_limit(G, L, R, Bb, B) :-
     '$inference_level'(R, B),
     '$remove_inference_counter'(NBb, Count1),
     Diff is L - (Count1 - Count0),
-    (  '$clean_up_block'(NBb),
-       '$reset_block'(Bb)
+    (  '$reset_block'(Bb),
+       '$clean_up_block'(NBb)
     ;  '$install_inference_counter'(NBb, Diff, _),
        '$reset_block'(NBb),
        '$fail'
